@@ -120,7 +120,12 @@ def case_bins(run, i):
     order = {c: k for k, c in enumerate(tchroms)}
     baits2.sort(key=lambda r: (order[r[0]], r[1], r[2]))
     labels = ["ref|GENE%d,mRNA|AF%d,ens|ENST%d" % (k // 3, k // 3, k) for k in range(len(baits2))]
-    b_arr = make_ga([b + (labels[k],) for k, b in enumerate(baits2)], ("gene",), odd=(i % 3 == 2))
+    if i % 5 == 4:
+        # baits read from an interval list or a 6-column BED carry a strand; probes on both strands of one exon overlap, abut or nest
+        b_arr = make_ga([b + (labels[k], "+-"[int(rng.integers(0, 2))]) for k, b in enumerate(baits2)], ("gene", "strand"), odd=(i % 3 == 2))
+        run.extra["bait-tables-with-a-strand-column"] += 1
+    else:
+        b_arr = make_ga([b + (labels[k],) for k, b in enumerate(baits2)], ("gene",), odd=(i % 3 == 2))
     tspan = sum(b[2] - b[1] for b in baits2)
     if tspan / tavg > 3000:
         tavg = tspan / 3000 + 0.5
